@@ -256,16 +256,16 @@ func Run(p *Proc, flagSet string, mainFn func()) {
 		default:
 			p.Crash = fmt.Sprint(r)
 			p.Stack = string(debug.Stack())
-			p.CrashAt = firstFrame(p.Stack)
+			p.CrashAt = FirstFrame(p.Stack)
 			p.Code = 2 // what a Go panic exits with
 		}
 	}()
 	mainFn()
 }
 
-// firstFrame finds the innermost frame of the panic stack that belongs to jd
+// FirstFrame finds the innermost frame of the panic stack that belongs to jd
 // (library or front end), skipping the runtime and the simulator.
-func firstFrame(stack string) string {
+func FirstFrame(stack string) string {
 	lines := strings.Split(stack, "\n")
 	seenPanic := false
 	for i := 0; i+1 < len(lines); i++ {
